@@ -68,6 +68,22 @@ def compare(chk, r, o):
         if o["result"] == "ok" and bytes(o["schema"]["value"]) != b"1.2":
             chk.violation("manifest accepted with schema %r: whenever a manifest is accepted the schema is '1.2'" % bytes(o["schema"]["value"]).decode("latin1"), rep)
         return
+    if r["rec"] == "styled":
+        # anchors / aliases / block and tagged scalars: verdict, values in manifest order, one error per offending entry (no positions claimed)
+        if (o["result"] == "ok") != r["ok"]:
+            chk.violation("manifest %s but the specification says %s" % (o["result"], "accepted" if r["ok"] else "rejected"), rep)
+        elif r["ok"]:
+            got = [bytes(i["value"]).decode("latin1") for i in o["items"]]
+            if got != r["values"]:
+                chk.violation("returned contents %s differ from the manifest's %s (order/verbatim)" % (got, r["values"]), rep)
+            elif bytes(o["schema"]["value"]) != b"1.2":
+                chk.violation("accepted with schema %r" % bytes(o["schema"]["value"]), rep)
+            for i in o["items"]:
+                if not real_safe(i["value"]):
+                    chk.violation("accepted manifest returns an unsafe path %r" % bytes(i["value"]), rep)
+        elif len(o["errors"]) != r["nerr"]:
+            chk.violation("%d errors, expected one per offending entry (%d)" % (len(o["errors"]), r["nerr"]), rep)
+        return
     if r["rec"] == "odd":
         if o["result"] == "ok":
             chk.violation("a manifest whose contents node is no list of strings (explicit tag contradicting the node kind) is accepted, contents %s"
@@ -149,6 +165,8 @@ def run(pid, tier):
         replay_records(chk, binary, sc, odd.records, "odd")
         odds = run_tlc("ModFile", CFG % dict(base, mode="OddSchema", inv="OddSchemaOK"), sc, cache=True)
         replay_records(chk, binary, sc, odds.records, "oddschema")
+        sty = run_tlc("ModFile", CFG % dict(base, mode="Styled", inv="StyledOK"), sc, cache=True)
+        replay_records(chk, binary, sc, sty.records, "styled")
         log("TLC: paths %d states (%.0fs), manifests %d states (%.0fs), given %d (%.0fs)" % (paths.distinct, paths.wall, man.distinct, man.wall, giv.distinct, giv.wall))
         replay_records(chk, binary, sc, paths.records, "paths")
         replay_records(chk, binary, sc, man.records, "man")
@@ -163,7 +181,7 @@ def run(pid, tier):
                        exhaustive=True, automaton_states=aut.distinct)
         for r in (paths.records[:1] + paths.records[-1:] + man.records[:1] + giv.records[:1]):
             chk.sample(r)
-        chk.assumptions += ["YAML positions are claimed for untagged plain/quoted scalars in block or flow sequences only",
+        chk.assumptions += ["YAML positions are claimed for untagged plain/quoted scalars in block or flow sequences only; anchors, aliases, block and tagged scalars are checked for verdict, values and error count (Styled of spec/ModFile.tla)",
                             "the position of a quoted scalar is the position of its opening quote"]
         return chk.finish()
     finally:
